@@ -34,10 +34,11 @@ func VerifLinkEncSession(l Link) *state.EncryptionSession {
 
 // VerifAcceptLink runs the link setup of an accepted connection exactly the
 // way the listener does - a new incoming LinkBase whose setupWorker is started
-// as a worker of the module manager - waits for the first run of that worker
-// to end and returns the link if it got registered (nil otherwise).
+// as a worker of the module manager - and waits for the first run of that
+// worker to end. It returns the link object in any case (attempted) and, if
+// the link got registered, also as registered (nil otherwise).
 // Verification hook: only compiled with the "verif" build tag.
-func (p *Peering) VerifAcceptLink(conn net.Conn, peeringURL *m.PeeringURL) Link {
+func (p *Peering) VerifAcceptLink(conn net.Conn, peeringURL *m.PeeringURL) (registered, attempted Link) {
 	newLink := newLinkBase(conn, peeringURL, false, p)
 	done := make(chan struct{})
 	var once sync.Once
@@ -47,7 +48,7 @@ func (p *Peering) VerifAcceptLink(conn net.Conn, peeringURL *m.PeeringURL) Link 
 	})
 	<-done
 	if newLink.peer.IsValid() && p.GetLink(newLink.peer) == Link(newLink) {
-		return newLink
+		return newLink, newLink
 	}
-	return nil
+	return nil, newLink
 }
